@@ -725,7 +725,7 @@ func (srv *Server) readUDP(conn *net.UDPConn, timeout time.Duration) ([]byte, *S
 	}
 	srv.lock.RUnlock()
 
-	m := srv.udpPool.Get().([]byte)
+	m := srv.getUDPBuffer()
 	n, s, err := ReadFromSessionUDP(conn, m)
 	if err != nil {
 		srv.udpPool.Put(m)
@@ -733,6 +733,16 @@ func (srv *Server) readUDP(conn *net.UDPConn, timeout time.Duration) ([]byte, *S
 	}
 	m = m[:n]
 	return m, s, nil
+}
+
+// getUDPBuffer takes a receive buffer from the pool. The pool outlives a restart of
+// the server, a buffer left over from a run with another UDPSize is not used.
+func (srv *Server) getUDPBuffer() []byte {
+	m := srv.udpPool.Get().([]byte)
+	if len(m) != srv.UDPSize {
+		return make([]byte, srv.UDPSize)
+	}
+	return m
 }
 
 func (srv *Server) readPacketConn(conn net.PacketConn, timeout time.Duration) ([]byte, net.Addr, error) {
@@ -743,7 +753,7 @@ func (srv *Server) readPacketConn(conn net.PacketConn, timeout time.Duration) ([
 	}
 	srv.lock.RUnlock()
 
-	m := srv.udpPool.Get().([]byte)
+	m := srv.getUDPBuffer()
 	n, addr, err := conn.ReadFrom(m)
 	if err != nil {
 		srv.udpPool.Put(m)
